@@ -360,6 +360,8 @@ type exec struct {
 	objN   int
 	tag    string // alias-case tag appended to obligation names
 	prevSt *State // state before the statement whose proof steps are being run (prev())
+	splitOK   int                    // >0 while a simple statement is executed under execSplittable
+	forcedRet map[*ast.CallExpr]int // inlined call -> index of the return path to follow
 	nameN  map[string]int
 	taint  bool
 	ptrTables map[*Obj]*types.Array // backing stores of []*[N]scalar tables
@@ -719,6 +721,17 @@ func (ex *exec) freshSlice(st *State, elem types.Type, name string, depth int) *
 			ex.ptrTables = map[*Obj]*types.Array{}
 		}
 		ex.ptrTables[o] = at
+	} else if isl, ok := elem.Underlying().(*types.Slice); ok && ptrToScalarArray(isl.Elem()) != nil && depth < 2 {
+		// slice of read-only pointer tables ([][]*[N]uintX, the transposed precomputation tables): the rows are
+		// created on first use, one fresh pointer table per constant outer index; never written
+		lz := &LazyRows{Elem: isl.Elem(), Name: name, Rows: map[int64]*Slice{}}
+		for k := int64(0); k < 4; k++ {
+			// rows 0..3 are created now, so that their basic facts are part of the entry state
+			r := ex.freshSlice(st, lz.Elem, fmt.Sprintf("%s[%d]", name, k), 2)
+			st.assume(Not(r.Nil))
+			lz.Rows[k] = r
+		}
+		st.heap[o] = lz
 	} else {
 		// slices of non-scalars: contents unknown; modelled lazily
 		st.heap[o] = &Opaque{"backing array of " + name}
@@ -852,6 +865,20 @@ func (ex *exec) load(st *State, p *Ptr, pos token.Pos) Value {
 			ex.fail(pos, "object %s not in heap", p.Obj)
 		}
 	}
+	if lz, ok := v.(*LazyRows); ok {
+		if len(p.Path) == 0 {
+			return lz
+		}
+		if len(p.Path) != 1 || p.Path[0].Field >= 0 || !p.Path[0].Idx.IsConst() {
+			ex.fail(pos, "slice of pointer tables indexed by a non-constant")
+		}
+		k := p.Path[0].Idx.Val.Int64()
+		if r, ok := lz.Rows[k]; ok {
+			return r
+		}
+		ex.fail(pos, "slice of pointer tables indexed beyond row 3")
+		return nil
+	}
 	if at, ok := ex.ptrTables[p.Obj]; ok && len(p.Path) == 1 && p.Path[0].Field < 0 {
 		row, ok := ex.navigate(v, p.Path, pos).(*Term)
 		if !ok {
@@ -887,6 +914,9 @@ func (ex *exec) store(st *State, p *Ptr, nv Value, pos token.Pos) {
 	}
 	if ex.readonlyObjs[p.Obj] || ex.ptrTables[p.Obj] != nil {
 		ex.fail(pos, "store into a pointer table or one of its rows (modelled read-only)")
+	}
+	if _, ok := st.heap[p.Obj].(*LazyRows); ok {
+		ex.fail(pos, "store into a slice of pointer tables (modelled read-only)")
 	}
 	v, ok := st.heap[p.Obj]
 	if !ok {
@@ -958,6 +988,9 @@ func (ex *exec) execStmt(st *State, s ast.Stmt) []*Outcome {
 		ex.fail(s.Pos(), "step budget exceeded")
 	}
 	ex.applyGhost(st, s, "before")
+	if outs, done := ex.execSplittable(st, s); done {
+		return outs
+	}
 	var pre *State
 	if ex.stmtHasRules(s) {
 		pre = st.clone() // the state just before the statement, for prev() in its proof steps
@@ -972,6 +1005,84 @@ func (ex *exec) execStmt(st *State, s ast.Stmt) []*Outcome {
 		}
 	}
 	return outs
+}
+
+// splitRequest: an inlined call inside a simple statement ended in n return paths that cannot be merged.
+type splitRequest struct {
+	call *ast.CallExpr
+	n    int
+}
+
+// execSplittable runs a simple statement that contains calls so that an unmergeable inlined call splits the
+// statement into one execution per return path (each from a copy of the state before the statement).
+func (ex *exec) execSplittable(st *State, s ast.Stmt) ([]*Outcome, bool) {
+	switch s.(type) {
+	case *ast.ExprStmt, *ast.AssignStmt, *ast.ReturnStmt, *ast.DeclStmt, *ast.IncDecStmt:
+	default:
+		return nil, false
+	}
+	hasCall := false
+	ast.Inspect(s, func(n ast.Node) bool {
+		if _, ok := n.(*ast.CallExpr); ok {
+			hasCall = true
+		}
+		if _, ok := n.(*ast.FuncLit); ok {
+			return false
+		}
+		return !hasCall
+	})
+	if !hasCall || ex.stmtHasRules(s) {
+		return nil, false
+	}
+	backup := st.clone()
+	nObl := len(ex.obligs)
+	var req *splitRequest
+	var outs []*Outcome
+	func() {
+		defer func() {
+			if r := recover(); r != nil {
+				if sr, ok := r.(splitRequest); ok {
+					req = &sr
+					return
+				}
+				panic(r)
+			}
+		}()
+		ex.splitOK++
+		defer func() { ex.splitOK-- }()
+		nf := len(ex.frames)
+		defer func() { ex.frames = ex.frames[:nf] }()
+		outs = ex.execStmt1(st, s)
+	}()
+	if req == nil {
+		for _, o := range outs {
+			if o.kind == ONormal {
+				ex.applyGhost(o.st, s, "after")
+			}
+		}
+		return outs, true
+	}
+	// discard the partial attempt and run the statement once per return path of that call
+	ex.obligs = ex.obligs[:nObl]
+	if ex.forcedRet == nil {
+		ex.forcedRet = map[*ast.CallExpr]int{}
+	}
+	if len(ex.forcedRet) > 6 {
+		ex.fail(s.Pos(), "too many nested unmergeable inlined calls in one statement")
+	}
+	var all []*Outcome
+	for k := 0; k < req.n; k++ {
+		ex.forcedRet[req.call] = k
+		c := backup.clone()
+		sub, _ := ex.execSplittableAgain(c, s)
+		all = append(all, sub...)
+	}
+	delete(ex.forcedRet, req.call)
+	return all, true
+}
+
+func (ex *exec) execSplittableAgain(st *State, s ast.Stmt) ([]*Outcome, bool) {
+	return ex.execSplittable(st, s)
 }
 
 func (ex *exec) execStmt1(st *State, s ast.Stmt) []*Outcome {
